@@ -206,14 +206,14 @@ Print Assumptions C17_validate_list.
 (* the whole call: a successful saveframe leaves the umask as before and a file holding one entry per
    selected frame, keyed by distance (distinct keys), with the frame's own metadata and its filtered
    locals; a refused call leaves the file system untouched *)
-Theorem C17_saveframe_end_to_end : forall rx valid pk script fa va ea cur e open_ok dump_ok (st : fs saved) res st',
-  saveframe rx valid pk script fa va ea cur e open_ok dump_ok st = (res, st') ->
+Theorem C17_saveframe_end_to_end : forall rx valid pk script esc fa va ea cur e open_ok dump_ok (st : fs saved) res st',
+  saveframe rx valid pk script esc fa va ea cur e open_ok dump_ok st = (res, st') ->
   fs_umask st' = fs_umask st /\
   match res with
   | Err _ => st' = st
   | Ok (o, d) =>
       exists sel inc exc entries,
-        validate_arguments valid script (default_frames fa cur) va ea = Ok (sel, inc, exc) /\
+        validate_arguments valid script (default_frames esc fa cur) va ea = Ok (sel, inc, exc) /\
         get_frames_to_save rx sel (all_frames_from_exception e) = Ok entries /\
         d = map (frame_metadata pk inc exc) entries /\
         NoDup (map s_index d) /\
